@@ -34,7 +34,7 @@ RULE = (
 )
 ASSUMPTIONS = ["bases containing the length-1 permutation are outside the domain (shape helpers assert non-empty remainders), see DESIGN §3"]
 REQUIRED = ["calls.find_strategies", "calls.InsertionEncodingStrategy.applies", "calls.FinitelyManySimplesStrategy.applies", "core.applies_true",
-            "core.applies_false", "symmetry.checked", "quick_vs_slow.checked", "near_miss.bases"] + [f"calls.{c.__name__}.applies" for c in CS.core_strategies]
+            "core.applies_false", "symmetry.checked", "quick_vs_slow.checked", "near_miss.bases", "error_path.failed_calls"] + [f"calls.{c.__name__}.applies" for c in CS.core_strategies]
 MIN_NONTRIVIAL = 60
 CTX = None
 MON = None
@@ -128,6 +128,8 @@ def in_domain(ts):
 
 def post_core(name):
     def post(args, kwargs, res, exc):
+        if not all(isinstance(b, Perm) for b in args[0].basis):
+            return  # not permutations: outside the domain (the error-path workload passes such values on purpose)
         ts = sorted(tuple(b) for b in args[0].basis)
         if not in_domain(ts):
             return
@@ -146,6 +148,8 @@ def post_core(name):
 
 
 def post_insenc(args, kwargs, res, exc):
+    if not all(isinstance(b, Perm) for b in args[0].basis):
+        return
     ts = [tuple(b) for b in args[0].basis]
     CTX.ev()
     want = K.insenc_rightmost(ts) or K.insenc_topmost(ts)
@@ -198,6 +202,14 @@ def chk_basis(ctx, basis, slow):
     if not in_domain(ts):
         return
     B = [Perm(t) for t in ts]
+    if ctx.rng.random() < 0.5:
+        # error path first: the same basis as plain tuples (not Perm objects) makes the library raise; the corrected
+        # call right after it must be unaffected
+        for bad in ([tuple(t) for t in ts], [list(t) for t in ts][:1] + [None]):
+            try:
+                ES.find_strategies(bad, False)
+            except Exception:
+                ctx.count("error_path.failed_calls")
     fast = names(ES.find_strategies(B, False))
     ctx.ev()
     want_fast = sorted(n for n in SPEC if core_applies(n, ts)) + (["InsertionEncodingStrategy"] if (K.insenc_rightmost(ts) or K.insenc_topmost(ts)) else [])
